@@ -785,3 +785,56 @@ Theorem binned_auprc_floor_invariant T xs : asc T -> T <> [] -> (forall x, In x 
   auprc_curve (map zq (bin_tp T xs)) (map zq (bin_fp T xs)) (map zq (bin_fn T xs))
   = auprc_curve (map zq (bin_tp T (floored T xs))) (map zq (bin_fp T (floored T xs))) (map zq (bin_fn T (floored T xs))).
 Proof. intros Hs Hne Hge. destruct (binned_counts_floor_invariant T xs Hs Hne Hge) as (-> & -> & ->). reflexivity. Qed.
+
+(* ======================================================================================== *)
+(* shapes: the count tensors always have the registered state's shape, so [avalid] of the       *)
+(* AddSpec instances is exactly the input check                                               *)
+(* ======================================================================================== *)
+Lemma same_nzeros_zvec n l : length l = n -> same (nzeros n) (zvec l) = true.
+Proof.
+  unfold nzeros, zvec, nvec. rewrite same_arr. revert l. induction n as [|n IH]; intros [|z l] Hl; try discriminate; [reflexivity|].
+  cbn [repeat map all2]. rewrite IH by (cbn in Hl; lia). reflexivity.
+Qed.
+Lemma same_nzeros2_zmat r k m : length m = r -> Forall (fun row => length row = k) m -> same (nzeros2 r k) (zmat m) = true.
+Proof.
+  unfold nzeros2, zmat, nmat. rewrite same_arr. revert m. induction r as [|r IH]; intros [|row m] Hl Hall; try discriminate; [reflexivity|].
+  inversion Hall; subst. cbn [repeat map all2].
+  change (nvec (map zq row)) with (zvec row). rewrite same_nzeros_zvec by reflexivity. rewrite IH by (try assumption; cbn in Hl; lia). reflexivity.
+Qed.
+Lemma same3 a b c a' b' c' : same a a' = true -> same b b' = true -> same c c' = true -> same (Arr [a; b; c]) (Arr [a'; b'; c']) = true.
+Proof. intros H1 H2 H3. rewrite same_arr. cbn [all2]. rewrite H1, H2, H3. reflexivity. Qed.
+Lemma map2_length {A B C} (f : A -> B -> C) : forall a b, length a = length b -> length (map2 f a b) = length a.
+Proof. induction a as [|x a IH]; intros [|y b] Hl; try discriminate; [reflexivity|]. cbn [map2 length]. rewrite IH by (cbn in Hl; lia). reflexivity. Qed.
+
+Theorem bprc_valid_all c xs : avalid bprc_spec c xs = true.
+Proof.
+  cbn [avalid bprc_spec]. unfold bprc_zero, bprc_beta. destruct (bin_len (thresholds c) xs) as (L1 & L2 & L3).
+  apply same3; apply same_nzeros_zvec; assumption.
+Qed.
+
+Definition table_shape (r k : nat) (m : list (list Z)) := length m = r /\ Forall (fun row => length row = k) m.
+Lemma table_shape_map_seq r k (f : nat -> list Z) : (forall i, length (f i) = k) -> table_shape r k (map f (seq 0 r)).
+Proof. intros H. split; [rewrite map_length, seq_length; reflexivity|]. apply Forall_forall. intros row Hr. apply in_map_iff in Hr as (i & <- & _). apply H. Qed.
+Lemma spec_table_shape {X} C T (f : nat -> nat -> list X -> Z) xs : table_shape (length T) C (spec_table C T f xs).
+Proof. apply table_shape_map_seq. intros i. rewrite map_length, seq_length. reflexivity. Qed.
+Lemma counts_spec_same {X} (scs : X -> list Z) hitf c xs :
+  same (m_zero c) (pack3 (counts_spec scs hitf (bC c) (thresholds c) xs)) = true.
+Proof.
+  unfold m_zero, pack3, counts_spec. cbn [fst snd].
+  apply same3; apply same_nzeros2_zmat; apply spec_table_shape.
+Qed.
+(* for sorted thresholds: valid = input check (both modes) *)
+Theorem mc_valid_is_input_check c xs : asc (thresholds c) -> mc_ok (bC c) xs = true -> avalid mcprc_spec c xs = true /\ avalid mcauprc_spec c xs = true.
+Proof.
+  intros Hs Hok. cbn [avalid mcprc_spec mcauprc_spec mk_spec]. unfold mc_beta. rewrite Hok, (mc_counts_spec c xs Hs Hok), counts_spec_same. auto.
+Qed.
+Theorem ml_valid_is_input_check c xs : asc (thresholds c) -> ml_ok (bC c) xs = true -> avalid mlprc_spec c xs = true /\ avalid mlauprc_spec c xs = true.
+Proof.
+  intros Hs Hok. cbn [avalid mlprc_spec mlauprc_spec mk_spec]. unfold ml_beta. rewrite Hok, (ml_counts_spec c xs Hs Hok), counts_spec_same. auto.
+Qed.
+Theorem bauprc_valid_is_input_check c rows : length rows = bC c -> rect rows = true -> avalid bauprc_spec c rows = true.
+Proof.
+  intros Hl Hr. cbn [avalid bauprc_spec]. rewrite Hl, Nat.eqb_refl, Hr. cbn [andb]. unfold bauprc_zero, bauprc_beta.
+  apply same3; apply same_nzeros2_zmat; try (rewrite map_length; exact Hl);
+    apply Forall_forall; intros r Hin; apply in_map_iff in Hin as (xs & <- & _); apply bin_len.
+Qed.
